@@ -153,6 +153,14 @@ func encCookies(style string, items []Item) [][2]string {
 		for _, it := range items {
 			hs = append(hs, [2]string{"Cookie", it.Name + "=" + it.Value})
 		}
+	case "lower":
+		parts := make([]string, len(items))
+		for i, it := range items {
+			parts[i] = it.Name + "=" + it.Value
+		}
+		if len(parts) > 0 {
+			hs = append(hs, [2]string{"cookie", strings.Join(parts, "; ")})
+		}
 	default:
 		sep := "; "
 		if style == "semi" {
@@ -200,13 +208,26 @@ func quoteParam(s string) string {
 func fileContent(i int) string { return strings.Repeat("z", i+1) }
 
 // encMultipart: Kind 'F' items are files (Sub = filename), others are fields.
-func encMultipart(items []Item) string {
+// Style "tok" writes parameter values that are tokens without quotes and the
+// header name in lower case.
+func encMultipart(style string, items []Item) string {
 	var sb strings.Builder
+	param := quoteParam
+	hdr := "Content-Disposition"
+	if style == "tok" {
+		hdr = "content-disposition"
+		param = func(s string) string {
+			if okToken(s) {
+				return s
+			}
+			return quoteParam(s)
+		}
+	}
 	for i, it := range items {
 		sb.WriteString("--" + boundary + "\r\n")
-		sb.WriteString("Content-Disposition: form-data; name=" + quoteParam(it.Name))
+		sb.WriteString(hdr + ": form-data; name=" + param(it.Name))
 		if it.Kind == "F" {
-			sb.WriteString("; filename=" + quoteParam(it.Sub))
+			sb.WriteString("; filename=" + param(it.Sub))
 			sb.WriteString("\r\nContent-Type: application/octet-stream")
 			sb.WriteString("\r\n\r\n" + fileContent(i) + "\r\n")
 			continue
@@ -252,7 +273,8 @@ func jsonString(style, s string) string {
 	return sb.String()
 }
 
-// encJSON writes one object; Kind "n" items are written as {"Name":{"Sub":"Value"}}.
+// encJSON writes one object; Kind "n" items are written as {"Name":{"Sub":"Value"}},
+// Kind "l" as {"Name":["Value"]}, Kind "r" as {"Name":Value} with Value a JSON literal.
 func encJSON(style string, items []Item) string {
 	var sb strings.Builder
 	sb.WriteByte('{')
@@ -262,9 +284,14 @@ func encJSON(style string, items []Item) string {
 		}
 		sb.WriteString(jsonString(style, it.Name))
 		sb.WriteByte(':')
-		if it.Kind == "n" {
+		switch it.Kind {
+		case "n":
 			sb.WriteString("{" + jsonString(style, it.Sub) + ":" + jsonString(style, it.Value) + "}")
-		} else {
+		case "l":
+			sb.WriteString("[" + jsonString(style, it.Value) + "]")
+		case "r":
+			sb.WriteString(it.Value) // a number / true / false literal
+		default:
 			sb.WriteString(jsonString(style, it.Value))
 		}
 	}
@@ -290,6 +317,9 @@ func okXML(it Item) bool {
 // "ref" writes every non-alphanumeric code point as a numeric character reference.
 func xmlText(style, s string) string {
 	var sb strings.Builder
+	if style == "cdata" {
+		return "<![CDATA[" + s + "]]>"
+	}
 	for _, r := range s {
 		switch {
 		case style == "ref" && !(r < 0x80 && isAlnum(byte(r))):
@@ -316,7 +346,11 @@ func encXML(style string, attr bool, items []Item) string {
 	sb.WriteString("<r>")
 	for _, it := range items {
 		if attr {
-			sb.WriteString("<e " + it.Name + "=\"" + xmlText(style, it.Value) + "\"/>")
+			st := style
+			if st == "cdata" {
+				st = "min"
+			}
+			sb.WriteString("<e " + it.Name + "=\"" + xmlText(st, it.Value) + "\"/>")
 		} else {
 			sb.WriteString("<" + it.Name + ">" + xmlText(style, it.Value) + "</" + it.Name + ">")
 		}
